@@ -190,8 +190,9 @@ PROPS = {
         rules=[r_init.s12_validate_dominates_init,
                lambda ctx: r_absint.a01_constructors(ctx, groups=('method-new', 'ma-init', 'config-init', 'config-validate', 'config-set', 'parser'), min_entries=165),
                r_absint.a01c_too_small, r_winv.a04_window_invariant, r_absint.a02_next_with_facts, r_counters.s08b_bounded_panicking_counters],
-        feature_sets=_sets(['default']),
-        rules_thorough=[lambda ctx: r_absint.a01_constructors(ctx, groups=('method-new', 'ma-init', 'config-init', 'config-validate', 'config-set', 'parser'), fs='u16', rule_id='A01@u16', min_entries=165), on_build(r_init.s12_validate_dominates_init, 'ci')],
+        feature_sets=_sets(['default'], ['default', 'u16', 'ci', 'unsafe']),
+        rules_thorough=[lambda ctx: r_absint.a01_constructors(ctx, groups=('method-new', 'ma-init', 'config-init', 'config-validate', 'config-set', 'parser'), fs='u16', rule_id='A01@u16', min_entries=165), on_build(r_init.s12_validate_dominates_init, 'ci'),
+                        on_build(r_absint.a02_next_with_facts, 'u16'), on_build(r_absint.a02_next_with_facts, 'unsafe')],
         explanation=('(S12) in every IndicatorConfig::init (37), each construction of Ok(instance) is dominated by the true branch of a '
                      'test on self.validate(), the false branch reaches no Ok, and the configuration is not written afterwards: init '
                      'returns Err whenever validate() is false. (A01) interval x relation abstract interpretation of the monomorphic MIR '
@@ -213,7 +214,8 @@ PROPS = {
                     'over-approximation: an unrefuted panic site is reported); next() only for configuration-determined panics.'),
     ),
     'C19': dict(
-        rules=[r_unsafe.s20_unsafe_twins, r_winv.a04_window_invariant],
+        rules=[r_unsafe.s20_unsafe_twins, r_winv.a04_window_invariant, on_build(r_winv.a04_window_invariant, 'unsafe')],
+        rules_thorough=[on_build(r_absint.a02_next_with_facts, 'unsafe')],
         feature_sets=_sets(['default', 'unsafe']),
         build_failure_is_violation=True,
         explanation=('Structural bisimulation between the default and unsafe_performance builds of the same working tree: (1) same items; '
@@ -225,7 +227,7 @@ PROPS = {
                      '(index, old_index) to equal block moves (src,dst,count) and the same single store. By induction over any call '
                      'sequence on which the default build does not panic, both builds are in equal states, the checked access passed its '
                      'bounds check, hence the unchecked access is in bounds and returns the same reference. (A04) independently of that argument, the '
-                     'inductive representation invariant of Window shows every index handed to get_unchecked in window.rs is < buf.len on a non-empty window.'),
+                     'inductive representation invariant of Window shows every index handed to get_unchecked in window.rs is < buf.len on a non-empty window; (A04@unsafe) the same rule interprets the MIR of the unsafe_performance build itself, where each get_unchecked(i) is an obligation i < len that must be discharged (thorough: A02@unsafe does so for next() of every method and indicator).'),
         not_decided=['nothing of the statement beyond the trusted base (documented contracts of get_unchecked, ptr::copy, copy_within)'],
         assumptions=TRUST + ['contracts of slice::get_unchecked(_mut), ptr::copy (memmove) and slice::copy_within as documented by std'],
         technique='static analysis: two-build MIR diff, unsafe-site confinement, twin matching on HIR, affine-form block-move equivalence',
@@ -258,8 +260,9 @@ PROPS = {
                lambda ctx: r_serde.s02_manual_serde_tables(ctx, only=('Window',)),
                lambda ctx: r_absint.a01_constructors(ctx, groups=('window-ctor', 'deserialize'), labels=('Window',), rule_id='A01w', min_entries=6,
                    title='Window::{new, from_parts, empty, From<Vec>, From<Box<[T]>>} and Window::deserialize: every reachable panic is one the constructor documents (# Panics); deserialize reaches none')],
-        feature_sets=_sets(['default']),
-        rules_thorough=[on_build(r_window.s01_iterator_discipline, 'ci'), on_build(r_window.s01c_single_slot_mapping, 'ci')],
+        feature_sets=_sets(['default'], ['default', 'u16', 'ci']),
+        rules_thorough=[on_build(r_window.s01_iterator_discipline, 'ci'), on_build(r_window.s01c_single_slot_mapping, 'ci'),
+                        on_build(r_winv.a04_window_invariant, 'u16'), on_build(r_winv.a04_window_invariant, 'ci')],
         explanation=('(S01) for WindowIterator and ReversedWindowIterator: size_hint is (r, Some(r)) of one field r; on every path of next() '
                      'a yielded item decrements r exactly once by 1 and is preceded by the test r != 0, None is returned exactly under r == 0 '
                      'without touching r; every other Option-returning override (last) looks at r before yielding; count returns r. '
